@@ -205,7 +205,7 @@ func (s *fileState) exec(c *ctx, op string) string {
 		res := guard(func() string { return s.q6r(f[1], f[2] == "1", atoi(f[3]), byte(c.count), relay) })
 		c.emit(op, res)
 		return res
-	case "fhammer":
+	case "fhammer", "fpair":
 		return s.hammer(c, op, f)
 	}
 	panic("bad op " + op)
